@@ -28,6 +28,7 @@ DIMS = OrderedDict([
     ("static", ["cubicfit", "generic"]),
     ("grid", ["g0", "g1", "g2", "g3", "g4", "g5"]),
     ("cwd", ["neutral", "decoy-inputs"]),
+    ("rows", ["given", "reversed", "rotated"]),      # row order of the static table (lattice rows move with their volumes)
     ("weights", ["increasing", "equal", "scaled"]),
     ("poly_degree", [2, 1]),
 ])
@@ -70,7 +71,9 @@ def run_case(case):
     viol = []
     MARGIN[0] = 0.0
     with K.scratch() as d, K.scratch() as elsewhere:
-        ds, st = synth.write(d, spec)
+        nvr = spec["nv"]
+        rows = {"given": None, "reversed": list(range(nvr))[::-1], "rotated": list(range(2, nvr)) + [0, 1]}[case.get("rows", "given")]
+        ds, st = synth.write(d, spec, rows=rows)
         if case.get("cwd") == "decoy-inputs":
             # the process runs in a directory that holds same-named files of ANOTHER data set; the settings file is
             # addressed by absolute path, so the inputs next to it are the ones that must be read
@@ -112,7 +115,7 @@ def run_case(case):
         if case.get("meta") and not viol:
             # phonon part independent of the tabulated static values: scale the table by 1.37
             with K.scratch() as d2:
-                synth.write(d2, spec, ds=ds, scale=1.37)
+                synth.write(d2, spec, ds=ds, scale=1.37, rows=rows)
                 c2 = Calculator(os.path.join(d2, "settings.yaml"))
                 for p in mods:
                     ph1 = numpy.asarray(iso[byp[p]]) - mods[p][4]
@@ -124,6 +127,83 @@ def run_case(case):
     nshear = sum(1 for p in want if p[1] >= 4)
     return {"viol": viol, "nontrivial": True, "outcome": f"ok/{len(want)}keys/{nshear}shear" if not viol else viol[0]["sig"],
             "margin": MARGIN[0]}
+
+
+VARIANTS = {"none": {}, "cubic": {"system": "cubic"}, "hex": {"system": "hexagonal"}, "tetra7": {"system": "tetragonal7"},
+            "ortho": {"system": "orthorhombic"}, "ortho-spline": {"system": "orthorhombic", "interpolator": "spline", "order": 3}}
+
+
+def run_history(case):
+    """process history: several Calculators built one after the other in ONE process on the SAME input files with different
+    settings files (crystal system, interpolator); each must equal the reference for its own settings."""
+    from mc.ref import pipeline_ref as P
+    import yaml
+    from cij.core.calculator import Calculator
+    base = dict(nv=6, nq=2, na=1, lattice="power", system=None, compset="full21", static="generic", weights="increasing", poly_degree=2,
+                qha=dict(GRIDS["g0"]))
+    viol = []
+    with K.scratch() as d:
+        # a full 21-column table that is isotropic (hence consistent with every system) up to small (< tolerance) deviations,
+        # so that every system's filling is accepted and CHANGES the table slightly (least-squares adjustment)
+        ds = synth.make(dict(base, system="cubic", compset="full21"))
+        for p in synth.PAIRS21:
+            if p[0] == p[1] and p[0] >= 4:
+                ds["table"][p] = (ds["table"][(1, 1)] - ds["table"][(1, 2)]) / 2
+        for n, p in enumerate(synth.PAIRS21):
+            ds["table"][p] = ds["table"][p] + 0.01 * ((n % 5) - 2)
+        synth.write(d, base, ds=ds)
+        for n, vname in enumerate(case["seq"]):
+            var = VARIANTS[vname]
+            st = synth.settings_dict(dict(base, **{k: v for k, v in var.items() if k != "system"}, system=var.get("system")))
+            sname = f"settings-{n}.yaml"
+            with open(os.path.join(d, sname), "w") as fp:
+                yaml.safe_dump(st, fp)
+            try:
+                c = Calculator(os.path.join(d, sname))
+            except Exception as ex:
+                viol.append(V(f"c05:history:raises:{type(ex).__name__}", f"step {n} ({vname}) of {case['seq']}: {K.fmt_exc(ex)}"))
+                break
+            # reference: static part = own fill of the tabulated values by least squares onto the system's invariant subspace
+            got = {tuple(k.voigt): numpy.asarray(a, float) for k, a in c.modulus_isothermal.items()}
+            fresh = fresh_observation(d, sname, vname, case.get("fresh_file"))
+            if sorted(got) != sorted(fresh):
+                viol.append(V("c05:history:keys", f"step {n} ({vname}) of {case['seq']}: components {sorted(got)} vs a fresh process {sorted(fresh)}"))
+                break
+            for p in got:
+                if not numpy.all(numpy.abs(got[p] - fresh[p]) <= 1e-12 * numpy.abs(fresh[p]).max()):
+                    viol.append(V("c05:history:differs-from-fresh-process", f"step {n} ({vname}) of {case['seq']}: c{p[0]}{p[1]} differs from the same calculation in a fresh process by {float(numpy.abs(got[p] - fresh[p]).max() / numpy.abs(fresh[p]).max()):.2e}"))
+                    break
+            if viol:
+                break
+            if case.get("collect"):
+                return {"viol": [], "fresh": {"%d%d" % p: a.tolist() for p, a in fresh.items()}}
+    return {"viol": viol, "nontrivial": len(case["seq"]) > 1, "outcome": "history-ok" if not viol else viol[0]["sig"]}
+
+
+_FRESH = {}
+
+
+def fresh_observation(d, sname, vname=None, fresh_file=None):
+    """the same settings in a fresh interpreter (cached per variant: the data set is the same for every history); explore()
+    precomputes them once into `fresh_file`, a replay without that file recomputes"""
+    import json
+    import subprocess
+    import sys
+    import yaml
+    key = open(os.path.join(d, sname)).read()
+    if key not in _FRESH and fresh_file and os.path.exists(fresh_file):
+        with open(fresh_file) as fp:
+            allv = json.load(fp)
+        if vname in allv:
+            _FRESH[key] = {(int(k[0]), int(k[1])): numpy.array(v) for k, v in allv[vname].items()}
+    if key not in _FRESH:
+        code = ("import sys, json, numpy; sys.path.insert(0, %r); from cij.core.calculator import Calculator; c = Calculator(%r); "
+                "print(json.dumps({'%%d%%d' %% tuple(k.voigt): numpy.asarray(a).tolist() for k, a in c.modulus_isothermal.items()}))") % (repo_root(), os.path.join(d, sname))
+        r = subprocess.run([sys.executable, "-B", "-W", "ignore", "-c", code], capture_output=True, text=True)
+        if r.returncode != 0:
+            raise HarnessError("fresh-process reference run failed: " + r.stderr[-300:])
+        _FRESH[key] = {(int(k[0]), int(k[1])): numpy.array(v) for k, v in json.loads(r.stdout.strip().splitlines()[-1]).items()}
+    return _FRESH[key]
 
 
 def canon(case):
@@ -139,7 +219,9 @@ def explore(ctx):
                 "10 system settings, component set, static-table kind, 6 grids incl. QHA fit order 4 and 5, working directory with decoy "
                 "same-named inputs, weights, spectrum degree); every configuration is a "
                 "real Calculator run on generated files compared with pipeline_ref (own parsers, own V*c fit, own strain rule, own "
-                "qha instance, sam_ref); level-<=1 configurations also re-run with the static table scaled by 1.37; non-trivial = all")
+                "qha instance, sam_ref); level-<=1 configurations also re-run with the static table scaled by 1.37; mode B: all ordered pairs "
+                "(triples thorough) of 6 settings variants (system / interpolator) run one after the other in ONE process on the SAME "
+                "input files, each compared with the same settings in a fresh interpreter; non-trivial = all")
     ctx.assumptions = ["qha 1.1.3 trusted as a library (its grid, P(T,V), C_V)", "spectra are polynomial in ln V of degree <= interpolation order, so the interpolant is exact",
                        "tolerance 1e-7 + twice the reference's own analytic-vs-grid difference for finite-difference pieces (strain fractions, static pressure)"]
     dims = OrderedDict((k, list(v)) for k, v in DIMS.items())
@@ -161,6 +243,25 @@ def explore(ctx):
     ctx.exhaustive = False
     ctx.notes["lattice"] = {"dims": {k: len(v) for k, v in dims.items()}, "bound": bound, "configs": len(cases)}
     res = ctx.run(MOD, "run_case", cases, part=f"lattice<={bound}", transitions=edges, chunksize=2)
+    import itertools
+    seqs = [list(p) for p in itertools.permutations(VARIANTS, 2)] + ([list(p) for p in itertools.permutations(VARIANTS, 3)] if not ctx.quick else
+                                                                      [["cubic", "none", "cubic"], ["none", "hex", "none"], ["ortho-spline", "ortho", "none"]])
+    import json
+    import tempfile
+    from concurrent.futures import ThreadPoolExecutor
+    import logging
+    logging.disable(logging.CRITICAL)
+    fresh_file = tempfile.mktemp(prefix="cij-c05-fresh-", suffix=".json", dir="/dev/shm")
+    try:
+        with ThreadPoolExecutor(6) as ex:
+            outs = list(ex.map(lambda v: run_history({"seq": [v], "collect": True}), list(VARIANTS)))
+        with open(fresh_file, "w") as fp:
+            json.dump({v: o.get("fresh", {}) for v, o in zip(VARIANTS, outs)}, fp)
+        ctx.run(MOD, "run_history", [{"seq": sq, "fresh_file": fresh_file} for sq in seqs], part="same-files-histories", chunksize=2,
+                transitions=sum(len(q) for q in seqs))
+    finally:
+        if os.path.exists(fresh_file):
+            os.remove(fresh_file)
     ctx.notes["worst_error_over_tolerance"] = max([r.get("margin", 0.0) for r in res] or [0.0])
 
 
